@@ -21,11 +21,15 @@ Public API
   names(direction=None, owner=None)
   gen_nodes(name, presence_subsets=True, vectors=3)      -> ProtocolTreeNode objects
   gen_entities(name, presence_subsets=True, vectors=3)   -> entity objects (outgoing shapes)
-  gen_cases(name, presence_subsets=True, vectors=3, phases=(0,), skews=(1,))
+  gen_cases(name, presence_subsets=True, vectors=3, phases=(0,), skews=(1,), plans=(0,))
                                                          -> Case objects (mask, vector, node | entity, meta);
                                                             phases shift list lengths against values, skews change
                                                             which values meet in one stanza (keep them coprime to 6)
-  build_case(name, mask, vector, phase=0, skew=1)        -> exactly one Case (replay)
+                                                            plans=(0,) | "all": indices into LIST_PLANS - nested lists
+                                                            with 2 and 3 outer items and different inner lists per item,
+                                                            sibling lists of different lengths (see LIST_PLANS)
+  build_case(name, mask, vector, phase=0, skew=1, plan=0) -> exactly one Case (replay)
+  SHAPES[name].inspect(entity, stanza)                   -> entity-level oracle where the entity has per-item accessors
   strict_diff(a, b, numeric=True, group_by_tag=True)     -> list of (kind, path, attr) differences
   codec_roundtrip(node)                                  -> node after the real WriteEncoder / ReadDecoder
   inventory()                                            -> all ProtocolEntity subclasses of the tree {qualname: cls}
@@ -47,10 +51,15 @@ U = ["4915225256022@s.whatsapp.net", "14155550100@s.whatsapp.net", "551198765432
 G = ["4915225256022-1415389947@g.us", "14155550100-1600000000@g.us", "120363001234567890@g.us",
      "5511987654321-1431204051@g.us", "27821234567-1431330385@g.us", "120363009876543210@g.us"]
 B = ["1415389947123@broadcast", "status@broadcast", "1600000000456@broadcast"]
+# the alphabets below this line only have to provide DISTINCT values of one class (so that items of nested lists
+# never share a value: aliasing / accumulation across list items is visible); they may be longer than 6
+U += ["49%09d@s.whatsapp.net" % (111111111 * i) for i in range(1, 10)] + ["4917612345678@s.whatsapp.net"]
+G += ["49%09d-14000000%02d@g.us" % (111111111 * i, i) for i in range(1, 7)]
 
 ALPHABETS = {
     # message / iq / notification ids: nibble-packable, hex-packable and plain forms
-    "id": ["1415389947-15", "3EB05F4A9C21", "msg.7-x", "1431364583-191", "3EB0AA10BB22", "iq_9"],
+    "id": ["1415389947-15", "3EB05F4A9C21", "msg.7-x", "1431364583-191", "3EB0AA10BB22", "iq_9",
+           "1431330096-317", "3EB0C0FFEE01", "msg.8-y", "1431330373-320", "3EB0C0FFEE02", "iq_10"],
     "ts": ["1415470561", "0", "2147483648"],                 # incl. 0 and 2^31
     "count": ["9", "0", "4294967295"],
     "retry": ["1", "2", "5"],                                 # a retry count is >= 1 by meaning
@@ -59,25 +68,33 @@ ALPHABETS = {
     "ujid": U,
     "gjid": G,
     "bjid": B,
-    "jid": [U[0], G[0], B[0], U[1], G[1], U[2]],              # user / group / broadcast
+    "jid": [U[0], G[0], B[0], U[1], G[1], U[2]],              # user / group / broadcast (exactly 6)
     "cjid": [U[0], G[0], U[1], G[1], U[2], G[2]],             # chat: user or group
     "server": ["s.whatsapp.net"],
     "gserver": ["g.us"],
     "text": ["WhatsApp", "Zoë Müller", "日本語 ☺", "Tarek Galal", "a b", "x"],  # attribute text, never empty
     "dtext": [b"Hey there! I am using WhatsApp.", "Grüße 日本 ☺".encode("utf-8"), b""],  # text content
     "blob": [b"\x00\x01\x02\xfe\xff", b"", bytes(range(256)) + b"\x00" * 44],                     # binary content
-    "number": [b"4915225256022", b"14155550100", b"5511987654321", b"79049347231", b"27821234567", b"8613800138000"],
+    "number": [b"4915225256022", b"14155550100", b"5511987654321", b"79049347231", b"27821234567", b"8613800138000"]
+              + [("49%09d" % (111111111 * i)).encode() for i in range(1, 7)],
     "numstr": ["1417046548593182", "130615237617000000", "7"],
     "reg4": [b"\x7a\x9c\xec\x4b", b"\x00\x00\x00\x01", b"\xff\xff\xff\xff"],
     "key32": [bytes((i * 7 + 5) & 0xFF for i in range(32)), bytes((i * 13 + 1) & 0xFF for i in range(32)),
-              bytes((255 - i) & 0xFF for i in range(32))],
+              bytes((255 - i) & 0xFF for i in range(32))] + [bytes((i * m + m) & 0xFF for i in range(32)) for m in range(17, 26)],
     "sig64": [bytes((i * 3 + 9) & 0xFF for i in range(64)), bytes((i * 11) & 0xFF for i in range(64)),
               bytes((200 - i) & 0xFF for i in range(64))],
+    "reg4u": [b"\x7a\x9c\xec\x4b", b"\x00\x00\x00\x01", b"\xff\xff\xff\xff", b"\x00\x00\x08\x08", b"\x12\x34\x56\x78",
+              b"\x00\x01\x00\x00"],
     "url": ["https://mmg.whatsapp.net/d/f/AbCdEf.enc", "https://mms883.whatsapp.net/u/1/2?x=y&z=%20", "url"],
     "ip": ["1.2.3.4", "174.37.199.214", "2a03:2880:f0ff::1"],
     "b64": ["Rk9PQkFS", "A0+b/c==", "x"],
 }
 LIST_LENS = [1, 2, 0]
+# list plans (both tiers, every shape that has a list).  Plan 0 is the cycling above.  Under plan q >= 1 a list
+# whose items carry lists themselves (groups -> participants) has len(LIST_PLANS[q]) items and the lists inside its
+# i-th item have LIST_PLANS[q][i] items - different inner lists per outer item, all values distinct; the j-th flat
+# (non-nested) list of a stanza has LIST_PLANS[q][j mod len] items, so sibling lists (in / out / invalid) differ too.
+LIST_PLANS = [None, (2, 0), (1, 2), (0, 2, 1), (3, 1, 2)]
 
 
 class A(object):
@@ -115,6 +132,7 @@ class Shape(object):
     def __init__(self, name, cls, direction, owner, spec=None, build=None, convert=None, note=None):
         self.name, self.cls, self.direction, self.owner = name, cls, direction, owner
         self.spec, self.build, self.convert, self.note = spec, build, convert, note
+        self.inspect = None       # incoming: f(entity, stanza) -> [(field, expected from the stanza, observed on the entity)]
         self.package = cls.__module__.split(".")[2]
 
     @property
@@ -123,9 +141,9 @@ class Shape(object):
 
 
 class Case(object):
-    def __init__(self, shape, mask, vector, nparts, phase=0, skew=1):
+    def __init__(self, shape, mask, vector, nparts, phase=0, skew=1, plan=0):
         self.shape, self.mask, self.vector, self.nparts = shape, mask, vector, nparts
-        self.phase, self.skew = phase, skew
+        self.phase, self.skew, self.plan = phase, skew, plan
         self.labels = {}          # path -> label
         self.node = None          # incoming: the stanza ; outgoing: filled by the caller from entity
         self.entity = None
@@ -138,7 +156,7 @@ class Case(object):
     @property
     def key(self):
         return {"shape": self.shape.name, "mask": self.mask, "vector": self.vector, "phase": self.phase,
-                "skew": self.skew}
+                "skew": self.skew, "plan": self.plan}
 
     def present_parts(self):
         return [p for i, p in enumerate(self.parts) if self.mask >> i & 1]
@@ -151,8 +169,12 @@ class Picker(object):
     """Draws slot values for one (mask, vector).  Every optional part is registered on first sight; its
     index is independent of the mask because absent parts are still traversed (and discarded)."""
 
-    def __init__(self, vector, mask, phase=0, skew=1):
+    def __init__(self, vector, mask, phase=0, skew=1, plan=0):
         self.v, self.mask, self.phase, self.skew = vector, mask, phase, skew
+        self.plan = LIST_PLANS[plan]
+        self.depth = 0            # list nesting depth of the node being generated
+        self.outer_idx = 0        # index of the enclosing outermost list item
+        self.nflat = 0            # flat (non-nested) lists seen so far
         self.kc = {}
         self.parts = []
         self.partidx = {}
@@ -194,13 +216,31 @@ class Picker(object):
     def flag(self, name):
         return self.present(("arg", name), name)
 
-    def list_len(self, minimum=0):
-        n = LIST_LENS[(self.v + self.phase + self.nlists) % len(LIST_LENS)]
+    def list_len(self, minimum=0, nested=False):
+        if self.plan is None:
+            n = LIST_LENS[(self.v + self.phase + self.nlists) % len(LIST_LENS)]
+        elif self.depth > 0:
+            n = self.plan[self.outer_idx % len(self.plan)]
+        elif nested:
+            n = len(self.plan)
+        else:
+            n = self.plan[self.nflat % len(self.plan)]
+            self.nflat += 1
         self.nlists += 1
         return max(minimum, n)
 
     def lst(self, fn, minimum=0):
         return [(fn() if callable(fn) else self.pick(fn)) for _ in range(self.list_len(minimum))]
+
+
+def _has_list(spec):
+    for kid in spec.kids:
+        if isinstance(kid, L):
+            return True
+        sub = [kid] if isinstance(kid, N) else [kid.node] if isinstance(kid, O) else kid.alts if isinstance(kid, ONEOF) else []
+        if any(_has_list(x) for x in sub):
+            return True
+    return False
 
 
 def _gen_node(p, spec, path, case, item_index=None):
@@ -241,8 +281,14 @@ def _gen_node(p, spec, path, case, item_index=None):
             if p.present(id(kid), "%s/%s" % (here, kid.node.tag)):
                 children.append(child)
         elif isinstance(kid, L):
-            n = p.list_len(kid.min)
-            items = [_gen_node(p, kid.node, here, case, j) for j in range(max(n, 1))]   # traverse >= 1 item: stable parts
+            n = p.list_len(kid.min, nested=_has_list(kid.node))
+            items = []
+            for j in range(max(n, 1)):                # traverse >= 1 item: stable part numbering
+                if p.depth == 0:
+                    p.outer_idx = j
+                p.depth += 1
+                items.append(_gen_node(p, kid.node, here, case, j))
+                p.depth -= 1
             children.extend(items[:n])
         elif isinstance(kid, ONEOF):
             alts = [_gen_node(p, alt, here, case, item_index) for alt in kid.alts]
@@ -255,9 +301,9 @@ def _gen_node(p, spec, path, case, item_index=None):
     return ProtocolTreeNode(tag, attrs, children or None, data)
 
 
-def _one(shape, mask, vector, phase=0, skew=1):
-    p = Picker(vector, mask, phase, skew)
-    case = Case(shape, mask, vector, 0, phase, skew)
+def _one(shape, mask, vector, phase=0, skew=1, plan=0):
+    p = Picker(vector, mask, phase, skew, plan)
+    case = Case(shape, mask, vector, 0, phase, skew, plan)
     if shape.spec is not None:
         case.node = _gen_node(p, shape.spec, "", case)
     else:
@@ -268,6 +314,7 @@ def _one(shape, mask, vector, phase=0, skew=1):
     case.parts = p.parts
     case.nparts = len(p.parts)
     case._width = p.choice_width
+    case._nlists = p.nlists
     return case
 
 
@@ -276,22 +323,29 @@ def _masks(n):
     return sorted(range(1 << n), key=lambda m: (bin(m).count("1"), m))
 
 
-def build_case(name, mask, vector, phase=0, skew=1):
-    return _one(SHAPES[name], mask, vector, phase, skew)
+def build_case(name, mask, vector, phase=0, skew=1, plan=0):
+    return _one(SHAPES[name], mask, vector, phase, skew, plan)
 
 
-def gen_cases(name, presence_subsets=True, vectors=3, phases=(0,), skews=(1,)):
-    """phases shift the list lengths against the values, skews change which values meet inside one stanza"""
+def gen_cases(name, presence_subsets=True, vectors=3, phases=(0,), skews=(1,), plans=(0,)):
+    """phases shift the list lengths against the values, skews change which values meet inside one stanza,
+    plans (indices into LIST_PLANS, or "all") give nested / sibling lists different lengths per item.
+    Plans other than 0 are only enumerated for shapes that have a list."""
     shape = SHAPES[name]
     probe = _one(shape, 0, 0)
     n = probe.nparts
     nvec = max(vectors, probe._width)
+    if plans == "all":
+        plans = tuple(range(len(LIST_PLANS)))
+    if not probe._nlists:
+        plans = (0,)
     masks = _masks(n) if presence_subsets else [0, (1 << n) - 1] if n else [0]
     for mask in masks:
         for skew in skews:
             for phase in phases:
-                for v in range(nvec):
-                    yield _one(shape, mask, v, phase, skew)
+                for plan in plans:
+                    for v in range(nvec):
+                        yield _one(shape, mask, v, phase, skew, plan)
 
 
 def gen_entities(name, presence_subsets=True, vectors=3):
@@ -1035,7 +1089,7 @@ def _b_retryout(p):
 _out("RetryOutgoingReceipt", RetryOutgoingReceiptProtocolEntity, "axolotl", _b_retryout,
      note="built by YowAxolotlReceiveLayer.send_retry from the undecryptable message stanza")
 _KEYUSER = N("user", [A("jid", "ujid")],
-             [N("registration", [], [], data="reg4"),
+             [N("registration", [], [], data="reg4u"),
               N("type", [], [], data=[b"\x00\x00\x00\x05", b"\x05"], label="int-field-width"),
               N("identity", [], [], data="key32"),
               N("skey", [], [N("id", [], [], data=[b"\x00\x00\x00\x00", b"\x00\x00\x01", b"\xff\xff\xff"], label="int-field-width"),
@@ -1083,6 +1137,170 @@ EXCLUDED = {
     "DownloadableMediaMessageProtocolEntity": "abstract base of the downloadable media message entities",
     "EncProtocolEntity": "part of EncryptedMessage (covered inside EncryptedMessage.in / .out)",
 }
+
+
+# --------------------------------------------------------------------------------------------------
+# entity-level oracles: what the accessors of the entity must say, read from the stanza by an independent walk.
+# They matter where a re-serialised stanza alone could hide a defect or localise it badly: per-item containers
+# (each Group's participants, each user's key bundle, the in / out / invalid number lists ...).
+# --------------------------------------------------------------------------------------------------
+def _kids(node, *path):
+    """children reached by following the tag path; the last tag may be None = all children"""
+    cur = [node]
+    for t in path:
+        cur = [c for n in cur for c in (n.children or []) if t is None or c.tag == t]
+    return cur
+
+
+def _cmp(out, field, expected, observed):
+    if expected != observed:
+        out.append((field, expected, observed))
+
+
+def _pmap(group_node):
+    return dict((p["jid"], p["type"]) for p in _kids(group_node, "participant"))
+
+
+def _i_listgroups(e, n):
+    out = []
+    gnodes = _kids(n, "groups", "group")
+    groups = e.getGroups()
+    _cmp(out, "len(getGroups())", len(gnodes), len(groups))
+    for i, (gn, g) in enumerate(zip(gnodes, groups)):
+        _cmp(out, "Group[%d].getId()" % i, gn["id"], g.getId())
+        _cmp(out, "Group.getParticipants()", _pmap(gn), dict(g.getParticipants()))
+        _cmp(out, "Group.getSubject()", gn["subject"], g.getSubject())
+        _cmp(out, "Group.getCreator()", gn["creator"], g.getCreator())
+        _cmp(out, "Group.getSubjectOwner()", gn["s_o"], g.getSubjectOwner())
+        _cmp(out, "Group.getSubjectTime()", int(gn["s_t"]), g.getSubjectTime())
+        _cmp(out, "Group.getCreationTime()", int(gn["creation"]), g.getCreationTime())
+    return out
+
+
+def _i_groupinfo(path):
+    def f(e, n):
+        out = []
+        gn = _kids(n, *path)[0]
+        _cmp(out, "getParticipants()", _pmap(gn), dict(e.getParticipants()))
+        _cmp(out, "getGroupId()", gn["id"], e.getGroupId())
+        _cmp(out, "getSubject()", gn["subject"], e.getSubject())
+        _cmp(out, "getCreatorJid()", gn["creator"], e.getCreatorJid())
+        _cmp(out, "getSubjectOwnerJid()", gn["s_o"], e.getSubjectOwnerJid())
+        _cmp(out, "getCreationTimestamp()", int(gn["creation"]), e.getCreationTimestamp())
+        _cmp(out, "getSubjectTimestamp()", int(gn["s_t"]), e.getSubjectTimestamp())
+        _cmp(out, "getGroupAdmins()", sorted(j for j, t in _pmap(gn).items() if t == "admin"), sorted(e.getGroupAdmins()))
+        return out
+    return f
+
+
+def _i_plist(*path):
+    def f(e, n):
+        out = []
+        _cmp(out, "getParticipants()", [p["jid"] for p in _kids(n, *path)], list(e.getParticipants()))
+        return out
+    return f
+
+
+def _i_success_participants(tag):
+    def f(e, n):
+        out = []
+        _cmp(out, "participantList", [c["participant"] for c in _kids(n, tag)], list(e.participantList))
+        _cmp(out, "groupId", n["from"], e.groupId)
+        return out
+    return f
+
+
+def _i_sync(e, n):
+    out = []
+    sync = _kids(n, "sync")[0]
+    _cmp(out, "inNumbers", dict((u.data.decode(), u["jid"]) for u in _kids(sync, "in", "user")), dict(e.inNumbers))
+    _cmp(out, "outNumbers", dict((u.data.decode(), u["jid"]) for u in _kids(sync, "out", "user")), dict(e.outNumbers))
+    _cmp(out, "invalidNumbers", [u.data.decode() for u in _kids(sync, "invalid", "user")], list(e.invalidNumbers))
+    _cmp(out, "version", sync["version"], e.version)
+    _cmp(out, "wait", None if sync["wait"] is None else int(sync["wait"]), e.wait)
+    _cmp(out, "index", int(sync["index"]), e.index)
+    return out
+
+
+def _i_receipt(e, n):
+    out = []
+    lst = _kids(n, "list")
+    _cmp(out, "items", [i["id"] for i in _kids(n, "list", "item")] if lst else None, e.items)
+    _cmp(out, "getId()", n["id"], e.getId())
+    _cmp(out, "getFrom()", n["from"], e.getFrom())
+    _cmp(out, "getParticipant()", n["participant"], e.getParticipant())
+    _cmp(out, "getType()", n["type"], e.getType())
+    return out
+
+
+def _i_privacy(e, n):
+    out = []
+    _cmp(out, "privacy", dict((c["name"], c["value"]) for c in _kids(n, "privacy", "category")), dict(e.privacy))
+    return out
+
+
+def _i_statuses(e, n):
+    out = []
+    _cmp(out, "statuses", dict((u["jid"], (u.data, u["t"])) for u in _kids(n, "status", "user")), dict(e.statuses))
+    return out
+
+
+def _i_features(e, n):
+    out = []
+    _cmp(out, "features", [c.tag for c in _kids(n, None)], list(e.features))
+    return out
+
+
+def _i_keys(e, n):
+    out = []
+    users = _kids(n, "list", "user")
+    _cmp(out, "getJids()", [u["jid"] for u in users], list(e.getJids()))
+    toint = lambda b: int.from_bytes(b, "big")
+    for u in users:
+        b = e.getPreKeyBundleFor(u["jid"])
+        if b is None:
+            out.append(("getPreKeyBundleFor(jid)", "a bundle", None))
+            continue
+        one = lambda *p: _kids(u, *p)[0].data
+        _cmp(out, "bundle.getRegistrationId()", toint(one("registration")), b.getRegistrationId())
+        _cmp(out, "bundle.getIdentityKey()", one("identity"), b.getIdentityKey().getPublicKey().getPublicKey())
+        _cmp(out, "bundle.getSignedPreKeyId()", toint(one("skey", "id")), b.getSignedPreKeyId())
+        _cmp(out, "bundle.getSignedPreKey()", one("skey", "value"), b.getSignedPreKey().getPublicKey())
+        _cmp(out, "bundle.getSignedPreKeySignature()", one("skey", "signature"), b.getSignedPreKeySignature())
+        _cmp(out, "bundle.getPreKeyId()", toint(one("key", "id")), b.getPreKeyId())
+        _cmp(out, "bundle.getPreKey()", one("key", "value"), b.getPreKey().getPublicKey())
+    return out
+
+
+def _i_encmsg(e, n):
+    out = []
+    encs = _kids(n, "enc")
+    got = e.getEncEntities()
+    _cmp(out, "len(getEncEntities())", len(encs), len(got))
+    for x, g in zip(encs, got):
+        _cmp(out, "enc.(type, version, data, mediaType)", (x["type"], int(x["v"]), x.data, x["mediatype"]),
+             (g.getType(), g.getVersion(), g.getData(), g.getMediaType()))
+    return out
+
+
+for _name, _f in (
+        ("ListGroupsResultIq", _i_listgroups),
+        ("InfoGroupsResultIq", _i_groupinfo(("group",))),
+        ("CreateGroupsNotification", _i_groupinfo(("create", "group"))),
+        ("ListParticipantsResultIq", _i_plist("participant")),
+        ("AddGroupsNotification", _i_plist("add", "participant")),
+        ("RemoveGroupsNotification", _i_plist("remove", "participant")),
+        ("SuccessAddParticipantsIq", _i_success_participants("add")),
+        ("SuccessRemoveParticipantsIq", _i_success_participants("remove")),
+        ("ResultSyncIq", _i_sync),
+        ("IncomingReceipt", _i_receipt),
+        ("RetryIncomingReceipt", _i_receipt),
+        ("ResultPrivacyIq", _i_privacy),
+        ("ResultStatusesIq", _i_statuses),
+        ("StreamFeatures", _i_features),
+        ("ResultGetKeysIq", _i_keys),
+        ("EncryptedMessage.in", _i_encmsg)):
+    SHAPES[_name].inspect = _f
 
 
 def coverage_of_inventory():
